@@ -156,7 +156,8 @@ class StatusMonitor:
         fallbackWeight = 1.0/len(self.commands)
         weights = []
 
-        for stage in status_report:
+        # VV: self.stageWeights is indexed by stage index, the status report may list the stages in any order
+        for stage in sorted(status_report, key=experiment.model.frontends.flowir.FlowIR.stage_identifier_to_stage_index):
             try:
                 weights.append(float(status_report[stage]['stage-weight']))
             except:
